@@ -1458,8 +1458,8 @@ func (h *vfC15) flap(route string, u, pid int) string {
 // The cache holds pidOld for u, the primary pidNew, user 1000+u exists in the primary only.
 // The loaders are called with the primary in every outage mode, with exactly its k-th statement
 // failing (for every k) and with the primary lost after its k-th statement (for every k).
-// Per point: where the answer came from (P = the primary's profile, C = the cached one, none =
-// "no such user", err) and the fromCache flag returned with it.
+// Per point: where the answer came from (compared with what each database holds at that moment)
+// and the fromCache flag returned with it.
 func (h *vfC15) label(u, pidOld, pidNew int) string {
 	state := h.state
 	user, user2 := vfUserName(u), vfUserName(1000+u)
@@ -1489,16 +1489,38 @@ func (h *vfC15) label(u, pidOld, pidNew int) string {
 		return strings.Join(l, ",")
 	}
 	pNames, cNames := namesOf(h.rawP), namesOf(h.rawC)
+	// what each database holds for a user right now (nil: no row)
+	rowOf := func(db *sql.DB, name string) *userProfile {
+		var blob []byte
+		if db.QueryRow("SELECT profile_data FROM user_profile WHERE username = ?", name).Scan(&blob) != nil {
+			return nil
+		}
+		var p userProfile
+		if gob.NewDecoder(bytes.NewReader(blob)).Decode(&p) != nil {
+			return nil
+		}
+		return &p
+	}
+	// answer classes: P = the primary's row, C = the cache's row, S = both hold the same content,
+	// N = "no such user" and only the cache lacks the row, Z = "no such user" and neither has it,
+	// X = "no such user" although the cache has the row, other, err
 	load := func(name string) string {
+		pr, cr := rowOf(h.rawP, name), rowOf(h.rawC, name)
 		p, ok, fc, err := state.LoadUserProfile(name)
 		switch {
 		case err != nil:
 			return "err" + vfBool(fc)
+		case !ok && cr == nil && pr != nil:
+			return "N" + vfBool(fc)
+		case !ok && cr == nil:
+			return "Z" + vfBool(fc)
 		case !ok:
-			return "none" + vfBool(fc)
-		case vfProfileDiff(nw, p) == "":
+			return "X" + vfBool(fc)
+		case pr != nil && cr != nil && vfProfileDiff(pr, cr) == "" && vfProfileDiff(pr, p) == "":
+			return "S" + vfBool(fc)
+		case pr != nil && vfProfileDiff(pr, p) == "":
 			return "P" + vfBool(fc)
-		case vfProfileDiff(old, p) == "":
+		case cr != nil && vfProfileDiff(cr, p) == "":
 			return "C" + vfBool(fc)
 		}
 		return "other" + vfBool(fc)
@@ -1508,6 +1530,8 @@ func (h *vfC15) label(u, pidOld, pidNew int) string {
 		switch {
 		case err != nil:
 			return "err" + vfBool(fc)
+		case strings.Join(names, ",") == pNames && pNames == cNames:
+			return "S" + vfBool(fc)
 		case strings.Join(names, ",") == pNames:
 			return "P" + vfBool(fc)
 		case strings.Join(names, ",") == cNames:
